@@ -218,6 +218,15 @@ def rule_z8(ctx, pl) -> None:
 
 def check(ctx) -> None:
     rule_z8(ctx, Pipeline(ctx))
+    # Z10: the statistics replayed from a cache entry are those of exactly that batch (shared with C12-K3)
+    from . import c12 as _c12
+
+    _c12.rule_k3(ctx, "C18-Z10")
+    # Z11: the counters a stage reports for a batch are computed from that batch: no attribute of a long-lived stage
+    # object is written while a batch is processed and read back by a later one (shared with C06-B7)
+    from . import c06 as _c06
+
+    _c06.rule_b7(ctx, ctx.res.reachable(["synrbl.balancing.Balancer.rebalance"], ctx.graph), "C18-Z11")
     rule_z5(ctx)
     rule_z6(ctx)
     # Z7: the stages count the rows that are returned: no row is removed from (or folded into another row of) the batch
